@@ -1,3 +1,5 @@
 import CrdtModel.Audit.Tool
+import CrdtModel.Props.Addenda
+import CrdtModel.Witness.NestedMore
 import CrdtModel.Props.C15
 #audit_ns Crdt.C15
